@@ -25,12 +25,22 @@ RULE = ("level 1.1 and 1.5 products (2 images) on local paths / file:// URLs; br
 ASSUMPTIONS = ["the CLI op is the only one allowed to add a file to the product directory, exactly <image>.index",
                "deletes are the harness's own and are excluded from the write monitor",
                "fresh-process references use an empty private cache directory and use_cache=False"]
-REQUIRED_OBS = ["steps", "trees_compared", "snapshots_compared", "audit_events_seen", "states_reached"]
+REQUIRED_OBS = ["steps", "trees_compared", "snapshots_compared", "audit_events_seen", "states_reached", "scripted_sequences"]
 CASE_TIMEOUT = 900
 
 RPCS = [1, 3, 6]
 OPS = [("open", uc, cc, r) for uc in (True, False) for cc in (True, False) for r in RPCS] + \
-      [("cli", None, None, None), ("del-user", None, None, None), ("del-adj", None, None, None), ("cli-sub", None, None, None)]
+      [("cli", None, None, None), ("del-user", None, None, None), ("del-adj", None, None, None), ("wipe-user-dir", None, None, None),
+       ("wipe-cache-root", None, None, None), ("cli-sub", None, None, None)]
+_O = lambda uc, cc, r: ("open", uc, cc, r)  # noqa: E731
+_X = lambda k: (k, None, None, None)  # noqa: E731
+SCRIPTS = [
+    [_O(False, True, 1), _X("wipe-user-dir"), _O(False, True, 1), _O(True, False, 3)],
+    [_O(True, True, 3), _X("wipe-cache-root"), _O(True, True, 3), _O(True, False, 6), _X("wipe-cache-root"), _O(True, False, 1)],
+    [_X("cli"), _O(True, False, 3), _X("del-adj"), _O(True, False, 3), _X("cli"), _O(True, False, 6)],
+    [_O(True, True, 6), _O(True, False, 1), _X("del-user"), _O(True, True, 1), _O(True, False, 3)],
+    [_X("cli"), _O(True, True, 1), _X("wipe-user-dir"), _O(True, False, 3), _X("del-adj"), _O(True, True, 6), _O(True, False, 6)],
+]
 NRAND = {"quick": 48, "thorough": 1500}
 LEN = {"quick": 8, "thorough": 30}
 
@@ -42,6 +52,9 @@ def _plan(tier):
             cases.append(("bfs", level, a))
     for k in range(NRAND[tier]):
         cases.append(("random", ["1.5", "1.1"][k % 2], k))
+    for level in ("1.5", "1.1"):
+        for k in range(len(SCRIPTS)):
+            cases.append(("script", level, k))
     return cases
 
 
@@ -115,6 +128,10 @@ def step(W, op, obs, violations, kept, tier):
         for p in (W.user if kind == "del-user" else W.adj):
             if os.path.exists(p):
                 os.remove(p)
+        return f"{kind}|{before_state}"
+    if kind in ("wipe-user-dir", "wipe-cache-root"):
+        # a user (or a cleaner) removes the product's cache directory / the whole cache root, not just the index files
+        shutil.rmtree(os.path.dirname(W.user[0]) if kind == "wipe-user-dir" else cachelib.user_cache_root(), ignore_errors=True)
         return f"{kind}|{before_state}"
     audit.arm(())
     try:
@@ -212,6 +229,13 @@ def run_case(i, tier, seed):
                     states.add(W.state())
             sample = {"kind": "all two-step sequences starting with", "first_op": list(OPS[k]), "level": level, "url": W.url,
                       "cache_states_reached": sorted(states)}
+        elif kind == "script":
+            W.reset()
+            for op in SCRIPTS[k]:
+                sigs.append(step(W, op, obs, violations, kept, tier))
+                states.add(W.state())
+            obs["scripted_sequences"] = 1
+            sample = {"kind": "scripted sequence", "level": level, "sequence": [list(o) for o in SCRIPTS[k]]}
         else:
             rng = random.Random(f"C10-{seed}-{k}")
             W.reset()
